@@ -87,3 +87,21 @@ Theorem C12_component_end_to_end : forall o g g' x, component_input g -> options
   layout_component o g = Ok (g', x) -> W2_statement o g g' x.
 Proof. exact G6_crossings. Qed.
 Print Assumptions C12_component_end_to_end.
+
+(* ---------- all four size-aware positioners ([options_ok'] admits the NetworkSimplex positioner; Proofs/NSPWhole.v) ---------- *)
+From Autog Require Import NSPositioner NSPWhole.
+
+Theorem C12_component_end_to_end_all_positioners : forall o g g' x, component_input g -> options_ok' o ->
+  layout_component o g = Ok (g', x) -> W2_statement o g g' x.
+Proof. exact G6_crossings'. Qed.
+Print Assumptions C12_component_end_to_end_all_positioners.
+
+Theorem C12_layout_crossings_all_positioners : forall (A : Type) (eqA : A -> A -> bool), (forall x y, eqA x y = true <-> x = y) ->
+  forall o fixed sizes es ids ns oes xs, options_ok' o ->
+  Pipeline.layout A eqA o fixed sizes es = Ok (ids, (ns, oes, xs)) ->
+  forall g, Populate.populate A eqA es = Ok (ids, g) ->
+  Forall2 (fun c v => exists c', layout_component o c = Ok (c', Some v) /\ component_input c /\
+                                 W2_statement o c c' (Some v) /\ (0 <= v)%Z)
+          (filter big (Populate.components (Populate.apply_sizes A eqA fixed sizes ids g))) xs.
+Proof. exact G9_layout_crossings'. Qed.
+Print Assumptions C12_layout_crossings_all_positioners.
